@@ -99,6 +99,77 @@ def chained_case(col, first):
     col.add(None if bad is None else {"sig": "native::transform::chained", "what": bad, "input": {"first_transformation": first, "second": "Shift(0.3) instance"}})
 
 
+def liesel_bijector_case(col, how):
+    """liesel's own AlgebraicSigmoid as the bijector: x ~ Uniform(-1, 1); new log-density at t = log p(b(t)) + log b'(t) with b'(t) by autodiff"""
+    import jax
+    from liesel.bijectors.algebraic_sigmoid import AlgebraicSigmoid
+    x = lsl.param(np.float32(0.3), lsl.Dist(tfd.Uniform, low=-1.0, high=1.0), name="rho")
+    if how == "instance":
+        t = x.transform(AlgebraicSigmoid())
+    elif how == "class":
+        t = x.transform(AlgebraicSigmoid, validate_args=False)  # a class needs at least one argument
+    else:
+        gb0 = lsl.GraphBuilder()
+        with warnings.catch_warnings():
+            warnings.simplefilter("ignore")
+            t = gb0.transform(x, AlgebraicSigmoid)
+    model = lsl.GraphBuilder().add(x).build_model()
+    b = AlgebraicSigmoid()
+    bad = None
+    for tv in (-2.0, -0.4, 0.05, 0.9, 3.0):
+        model.vars[t.name].value = np.float32(tv)
+        want = float(np.log(0.5) + np.log(float(jax.grad(lambda z: b.forward(z))(jnp.float32(tv)))))
+        got = float(np.sum(np.asarray(model.vars[t.name].log_prob)))
+        xv = float(model.vars["rho"].value)
+        if not (np.isclose(got, want, rtol=1e-3, atol=1e-4) and np.isclose(xv, float(b.forward(jnp.float32(tv))), rtol=1e-5)):
+            bad = f"t = {tv}: new log-density {got}, change of variables gives {want}; rho = {xv}"
+            break
+    col.add(None if bad is None else {"sig": "native::transform::liesel_bijector", "what": bad, "input": {"bijector": "AlgebraicSigmoid", "entry": how}})
+
+
+def copied_graph_case(col, how, via):
+    """x ~ Uniform(0, high) with the parameter-dependent default bijector Sigmoid(0, high), transformed by `how`; the model is then built from a
+    deep COPY of the graph (build_model(copy=True) / LieselInterface / copy_nodes_and_vars + rebuild) and `high` is re-assigned in the copy only:
+    the original variable of the copy must be the bijector image at the COPY's parameter value (analytic reference)"""
+    import liesel.goose as gs
+    high = lsl.Var(np.float32(2.0), name="high")
+    x = lsl.param(np.float32(0.5), lsl.Dist(tfd.Uniform, low=0.0, high=high), name="x")
+    if how == "auto":
+        x.auto_transform = True
+    elif how == "default":
+        x.transform()
+    elif how == "class":
+        x.transform(tfb.Sigmoid, low=0.0, high=high)
+    else:
+        with warnings.catch_warnings():
+            warnings.simplefilter("ignore")
+            gb0 = lsl.GraphBuilder()
+            gb0.transform(x)
+    y = lsl.obs(np.float32(0.7), lsl.Dist(tfd.Normal, loc=x, scale=1.0), name="y")
+    gb = (gb0 if how == "deprecated" else lsl.GraphBuilder()).add(y)
+    tv, hv = 0.4, 5.0
+    x_true = hv / (1.0 + np.exp(-tv))
+    if via == "build_copy":
+        m = gb.build_model(copy=True)
+        m.vars["high"].value = np.float32(hv)
+        m.vars["x_transformed"].value = np.float32(tv)
+        got = float(m.vars["x"].value)
+    elif via == "interface":
+        m0 = gb.build_model()
+        st = gs.LieselInterface(m0).update_state({"high": jnp.float32(hv), "x_transformed": jnp.float32(tv)}, m0.state)
+        got = float(st["x_value"].value)
+    else:
+        m0 = gb.build_model()
+        nodes, vars_ = m0.copy_nodes_and_vars()
+        m = lsl.GraphBuilder().add(vars_["y"]).build_model()
+        m.vars["high"].value = np.float32(hv)
+        m.vars["x_transformed"].value = np.float32(tv)
+        got = float(m.vars["x"].value)
+    col.add(None if np.isclose(got, x_true, rtol=1e-5) else
+            {"sig": "native::transform::copied_graph", "what": f"{how} via {via}: in the copied model x = {got} but Sigmoid(0, high={hv}).forward({tv}) = {x_true} "
+             "(the user's own graph has high = 2.0)", "input": {"entry": how, "copy": via, "high_in_copy": hv, "x_transformed": tv}})
+
+
 def boundary_value_case(col, how):
     """an initial value with one element ON the boundary of the support (mapped to -inf by the default bijector): the original variable
     keeps its value in every element, whichever entry point performs the transformation"""
@@ -120,11 +191,22 @@ def boundary_value_case(col, how):
 
 def bounded(tier, seed):
     col = util.Collector()
+    for how in ("instance", "class", "deprecated"):
+        try:
+            liesel_bijector_case(col, how)
+        except Exception as e:
+            col.add({"sig": f"native::transform::exception::{type(e).__name__}", "what": f"AlgebraicSigmoid/{how}: {str(e)[:200]}", "input": {"entry": how}})
     for how in ("auto", "manual"):
         try:
             boundary_value_case(col, how)
         except Exception as e:
             col.add({"sig": f"native::transform::exception::{type(e).__name__}", "what": f"boundary/{how}: {str(e)[:200]}", "input": {"entry": how}})
+    for how in ("auto", "default", "class", "deprecated"):
+        for via in ("build_copy", "interface", "copy_nodes_and_vars"):
+            try:
+                copied_graph_case(col, how, via)
+            except Exception as e:
+                col.add({"sig": f"native::transform::exception::{type(e).__name__}", "what": f"copied graph/{how}/{via}: {str(e)[:200]}", "input": {"entry": how, "copy": via}})
     for first in ("instance", "default"):
         try:
             chained_case(col, first)
@@ -145,5 +227,5 @@ def bounded(tier, seed):
     return {"evaluations": col.evals, "distinct_nontrivial": n,
             "rule": (f"BOUNDED: {len(DISTS)} distributions (Exponential, HalfCauchy, InverseGamma, Gamma, Beta, Uniform with variable bounds) x entry points (default, auto-transform, "
                      f"Exp instance, Scale class with a model variable as argument, deprecated builder method) at {len(ts)} unconstrained points, before and after doubling a distribution "
-                     "parameter and changing the bijector argument: value of the original variable = b(t), new log-density = p(b(t)) + log|db/dt| computed directly with TFP; an initial value with an element on the support boundary (auto and manual); a chain of two transformations (the new variable transformed again)."),
+                     "parameter and changing the bijector argument: value of the original variable = b(t), new log-density = p(b(t)) + log|db/dt| computed directly with TFP; liesel's own AlgebraicSigmoid bijector (Jacobian by autodiff); an initial value with an element on the support boundary (auto and manual); a chain of two transformations (the new variable transformed again); parameter-dependent bijector in a COPIED graph (build_model(copy=True), LieselInterface, copy_nodes_and_vars + rebuild) x 4 entry points against the analytic image."),
             "samples": [{"distribution": "Uniform", "entry": "default"}], "exhaustive": False, "violations": col.violations}
